@@ -224,10 +224,89 @@ def r_axis(c):
             "transpose does not check that axes is a permutation of range(ndim)")
 
 
+def splice_sites(m, modules=None):
+    """(function, index variable, node) for every sequence splice
+    ``X[:i] ... X[i + 1:]`` (drop / replace position i) in the package"""
+    out = []
+    for mi, fd in m.all_functions(modules=modules):
+        from pta.order import _own_nodes
+        heads, tails = {}, {}
+        for n in _own_nodes(fd):
+            if isinstance(n, ast.Subscript) and isinstance(n.slice, ast.Slice) \
+                    and n.slice.step is None:
+                sl = n.slice
+                if sl.lower is None and isinstance(sl.upper, ast.Name):
+                    heads.setdefault((ast.unparse(n.value), sl.upper.id), n)
+                if sl.upper is None and isinstance(sl.lower, ast.BinOp) \
+                        and isinstance(sl.lower.op, ast.Add) \
+                        and isinstance(sl.lower.left, ast.Name) \
+                        and ast.unparse(sl.lower.right) == "1":
+                    tails.setdefault((ast.unparse(n.value), sl.lower.left.id), n)
+        for k in heads:
+            if k in tails:
+                out.append((mi, fd, k[1], heads[k]))
+    return out
+
+
+def _nonneg_proof(m, fd, var, site):
+    """why ``var`` is a non-negative position at ``site`` (None if unproven).
+    For a negative i the splice X[:i] + X[i+1:] keeps/duplicates elements."""
+    chain = [fd]
+    p = m.enclosing_function(fd)
+    while p is not None:
+        chain.append(p)
+        p = m.enclosing_function(p)
+    for f in chain:
+        nested = f is not fd
+        for n in ast.walk(f):
+            before = nested or getattr(n, "lineno", 0) < site.lineno
+            # i = something.index(...)
+            if isinstance(n, ast.Assign) and any(
+                    isinstance(t, ast.Name) and t.id == var for t in n.targets) and before:
+                v = n.value
+                if isinstance(v, ast.Call) and isinstance(v.func, ast.Attribute) \
+                        and v.func.attr == "index":
+                    return "result of .index()"
+                if isinstance(v, ast.BinOp) and isinstance(v.op, ast.Mod) \
+                        and isinstance(v.left, ast.Name) and v.left.id == var:
+                    return f"normalised by `{ast.unparse(n)}`"
+            if isinstance(n, (ast.For, ast.comprehension)) and any(
+                    isinstance(t, ast.Name) and t.id == var for t in ast.walk(n.target)):
+                it = n.iter
+                if isinstance(it, ast.Call) and isinstance(it.func, ast.Name) \
+                        and it.func.id in ("range", "enumerate"):
+                    return f"index of {it.func.id}()"
+            if isinstance(n, ast.If) and before and n in f.body:
+                g = _guard(ast.Module(body=[n], type_ignores=[]), var)
+                if g is not None and g[0] == "0" and not g[1]:
+                    return f"guarded by `if {ast.unparse(n.test)}: raise`"
+                if ast.unparse(n.test) == f"{var} < 0" and any(
+                        isinstance(s_, ast.Raise) for s_ in n.body):
+                    return f"guarded by `if {var} < 0: raise`"
+    return None
+
+
+def r_splice(c):
+    m = c.model
+    sites = splice_sites(m)
+    if len(sites) < 3:
+        raise AnalysisError(f"only {len(sites)} sequence splices found (floor 3)")
+    for mi, fd, var, node in sites:
+        why = _nonneg_proof(m, fd, var, node)
+        qn = m.qualname(fd).replace("pytato.", "", 1)
+        c.check(why is not None, "R03-SPLICE", qn, f"{var}:non-negative-at-splice",
+                m.loc(mi, node),
+                f"`{m.frag(node, 30)} ... [{var} + 1:]` drops/replaces position {var} "
+                f"only for {var} >= 0, but {var} is neither validated as non-negative "
+                "nor normalised before: a negative (NumPy-style) position is accepted "
+                "and builds a sequence of the wrong length",
+                ok_detail=why)
+
+
 SPEC = Spec(
     prop="C03",
-    rules=[r_eager, r_axis],
-    floors={"R03-EAGER": 70, "R03-AXIS": 15},
+    rules=[r_eager, r_axis, r_splice],
+    floors={"R03-EAGER": 70, "R03-AXIS": 15, "R03-SPLICE": 3},
     explanation=(
         "Decides two clauses; the agreement of inferred shapes/dtypes with NumPy's "
         "value-level behaviour is NOT decided. R03-EAGER: for every concrete array "
